@@ -98,12 +98,22 @@ var (
 	}
 )
 
+// unicodeToRune converts the hexadecimal digits of a \u escape.
+// It returns -1 if a byte is not a hexadecimal digit.
 func unicodeToRune(code []byte) rune {
 	var r rune
 	for i := 0; i < len(code); i++ {
-		r = r*16 + rune(hexToInt[code[i]])
+		c := code[i]
+		if !(('0' <= c && c <= '9') || ('a' <= c && c <= 'f') || ('A' <= c && c <= 'F')) {
+			return -1
+		}
+		r = r*16 + rune(hexToInt[c])
 	}
 	return r
+}
+
+func errInvalidUnicodeEscape(offset int64) error {
+	return errors.ErrSyntax("json: invalid character in \\u hexadecimal character escape", offset)
 }
 
 func readAtLeast(s *Stream, n int64, p *unsafe.Pointer) bool {
@@ -125,6 +135,9 @@ func decodeUnicodeRune(s *Stream, p unsafe.Pointer) (rune, int64, unsafe.Pointer
 	}
 
 	r := unicodeToRune(s.buf[s.cursor+1 : s.cursor+defaultOffset])
+	if r < 0 {
+		return rune(0), 0, nil, errInvalidUnicodeEscape(s.totalOffset())
+	}
 	if utf16.IsSurrogate(r) {
 		if !readAtLeast(s, surrogateOffset, &p) {
 			return unicode.ReplacementChar, defaultOffset, p, nil
